@@ -13,6 +13,7 @@ bootstrap.ensure()
 
 ID = "C09"
 LEVEL = "exploration"
+TECHNIQUE = "runtime monitoring: history monitor - fingerprint sweep of the whole pool after every step, rebuild comparison"
 RULE = (
     "seeded random histories of 25-60 (quick) / 60-200 (thorough) steps over a pool of relations that only grows: "
     "factory calls on random pool members (all operation kinds, all preferred-engine options, joins and chains "
